@@ -25,14 +25,24 @@ import (
 //
 //	never-after  a callback to client c for call X that BEGINS at stamp t needs
 //	             a registration of c, compatible with X, whose AddQuery was
-//	             called before t and whose remove() had not RETURNED before t.
-//	             (With the lock discipline of the property - remove() cannot
-//	             return while an update that still sees the registration is
-//	             delivering - no schedule produces such a callback.)
+//	             called before t and of whose remove function NO call had
+//	             RETURNED before t. The rule is stated per call: the remove
+//	             function of one registration may be called any number of
+//	             times, from several goroutines at once, and every caller that
+//	             got its call back was told that the removal is done.
+//	             (With the lock discipline of the property - no call of
+//	             remove() can return while an update that still sees the
+//	             registration is delivering - no schedule produces such a
+//	             callback: take the last AddQuery of the pair (client, path)
+//	             before the update's walk; every call of ITS remove function
+//	             runs after the walk, hence returns after the callback began.)
 //	must-call    a registration whose AddQuery returned before X was called,
-//	             and which nobody started to remove until X returned, is
-//	             invoked by X when compatible (raw Update: once per such
-//	             registration; notification: at least once).
+//	             and for whose pair (client, path) no call of any remove
+//	             function was in progress or started between that AddQuery and
+//	             the return of X, is invoked by X when compatible (raw Update:
+//	             once per such pair; notification: at least once). A stale call
+//	             of the remove function of an OLDER registration of the same
+//	             pair therefore makes the newer one a don't-care.
 //	at-most      a notification is offered to a client at most once; a raw
 //	             Update at most once per registration that may have been live.
 //
@@ -66,9 +76,11 @@ type CCall struct {
 //	        static id (ids are assigned in scenario order: Regs, then every add
 //	        of round 0 mutator 0, mutator 1, ..., round 1, ...)
 //
-// A registration may be removed only once, and only by a step that is ordered
-// after its creation (created by Regs, in an earlier round, or earlier by the
-// same mutator).
+// A remove step must be ordered after the creation of its registration
+// (created by Regs, in an earlier round, or earlier by the same mutator). The
+// same registration may be named by any number of remove steps, of one mutator
+// (sequential calls of the same remove function) and of several mutators of
+// one round (calls of the same remove function that overlap).
 type CAct struct {
 	Kind   string   `json:"kind"`
 	Handle int      `json:"handle,omitempty"`
@@ -102,15 +114,69 @@ type cHandle struct {
 	client         int
 	path           []string
 	remove         func()
-	addCall        int64 // stamp taken before AddQuery was called
-	addRet         int64 // stamp taken after AddQuery returned
-	rmCall         int64 // stamp taken before remove() was called (0: never)
-	rmRet          int64 // stamp taken after remove() returned
-	removeRound    int
-	removePlanned  bool
-	createdRound   int // -1: Regs
+	addCall        int64     // stamp taken before AddQuery was called
+	addRet         int64     // stamp taken after AddQuery returned
+	calls          []*rmCall // one per remove step naming the registration (+ the audit's)
+	rmCall         int64     // derived at quiescence: earliest stamp of any call of remove() (0: never)
+	rmRet          int64     // derived at quiescence: earliest stamp at which any call of remove() had returned
+	createdRound   int       // -1: Regs
 	createdMutator int
 	createdStep    int
+}
+
+// rmCall is one call of the remove function of a registration.
+type rmCall struct {
+	round, mutator int
+	call           int64 // stamp taken before remove() was called (0: not yet)
+	ret            int64 // stamp taken after this call of remove() returned
+}
+
+// cStep is one resolved mutator step.
+type cStep struct {
+	h  *cHandle
+	rc *rmCall // remove steps
+}
+
+// derive recomputes the per-registration summaries; called at quiescence only.
+func (r *concRun) derive() {
+	for _, h := range r.handles {
+		h.rmCall, h.rmRet = 0, 0
+		for _, rc := range h.calls {
+			if rc.call != 0 && (h.rmCall == 0 || rc.call < h.rmCall) {
+				h.rmCall = rc.call
+			}
+			if rc.ret != 0 && (h.rmRet == 0 || rc.ret < h.rmRet) {
+				h.rmRet = rc.ret
+			}
+		}
+	}
+}
+
+// inRound summarises the calls of h's remove function made in round ri.
+func (h *cHandle) inRound(ri int) (first, firstRet int64, n int) {
+	for _, rc := range h.calls {
+		if rc.round != ri || rc.call == 0 {
+			continue
+		}
+		n++
+		if first == 0 || rc.call < first {
+			first = rc.call
+		}
+		if rc.ret != 0 && (firstRet == 0 || rc.ret < firstRet) {
+			firstRet = rc.ret
+		}
+	}
+	return
+}
+
+// returnedBefore: some call of h's remove function made before round ri has returned.
+func (h *cHandle) returnedBefore(ri int) bool {
+	for _, rc := range h.calls {
+		if rc.round < ri && rc.ret != 0 {
+			return true
+		}
+	}
+	return false
 }
 
 type cbEvent struct {
@@ -185,6 +251,10 @@ type concStats struct {
 	readd, notifyCall, rawCall, multiEntry            bool
 	removedNotCalled, raceInFree, glob, noPauseNeeded bool
 	dupPair                                           bool
+	// calls of ONE remove function from several goroutines / repeatedly
+	multiNontrivial, sameRemoveOverlaps, gangDuringPause bool
+	gangAllWaited, gangWindow, gangCalledAfterRelease    bool
+	gangInFree, calledAgain, staleAfterReadd             bool
 }
 
 func (s concStats) labels() []string {
@@ -215,6 +285,15 @@ func (s concStats) labels() []string {
 	add(s.raceInFree, "free-round-callback-overlaps-a-remove")
 	add(s.glob, "compatible-through-glob")
 	add(s.noPauseNeeded, "paused-round-in-which-no-call-paused")
+	add(s.multiNontrivial, "nontrivial-multi")
+	add(s.sameRemoveOverlaps, "calls-of-one-remove-func-overlap")
+	add(s.gangDuringPause, "2plus-calls-of-one-remove-func-began-while-a-call-is-paused")
+	add(s.gangAllWaited, "all-of-them-returned-only-after-the-release")
+	add(s.gangWindow, "2plus-calls-of-remove-func-of-registration-the-paused-call-has-still-to-invoke")
+	add(s.gangCalledAfterRelease, "that-registration-invoked-after-release-while-2plus-remove-calls-pending")
+	add(s.gangInFree, "free-round-callback-overlaps-2-overlapping-calls-of-one-remove-func")
+	add(s.calledAgain, "remove-func-called-again-after-a-call-of-it-had-returned")
+	add(s.staleAfterReadd, "old-remove-func-called-again-after-pair-was-registered-again")
 	return l
 }
 
@@ -262,21 +341,23 @@ func (r *concRun) newCall(round, idx, rep int, spec *CCall) *callRun {
 	return cr
 }
 
-func (r *concRun) doAct(h *cHandle, kind string) {
+func (r *concRun) doAct(s cStep, kind string) {
+	h := s.h
 	switch kind {
 	case "add":
 		h.addCall = r.seq.Add(1)
 		h.remove = r.m.AddQuery(clonePath(h.path), r.clients[h.client])
 		h.addRet = r.seq.Add(1)
 	case "remove":
-		h.rmCall = r.seq.Add(1)
+		// Only this goroutine writes s.rc; everything is read at quiescence.
+		s.rc.call = r.seq.Add(1)
 		h.remove()
-		h.rmRet = r.seq.Add(1)
+		s.rc.ret = r.seq.Add(1)
 	}
 }
 
 // plan validates the scenario and assigns the static handle ids.
-func (r *concRun) plan(sc *ConcScenario) (acts [][][]*cHandle, err error) {
+func (r *concRun) plan(sc *ConcScenario) (acts [][][]cStep, err error) {
 	addClient := func(id int) {
 		if r.clients[id] == nil {
 			r.clients[id] = &cClient{id: id, run: r}
@@ -286,7 +367,7 @@ func (r *concRun) plan(sc *ConcScenario) (acts [][][]*cHandle, err error) {
 		addClient(reg.Client)
 		r.handles = append(r.handles, &cHandle{id: len(r.handles), client: reg.Client, path: reg.Path, createdRound: -1})
 	}
-	acts = make([][][]*cHandle, len(sc.Rounds))
+	acts = make([][][]cStep, len(sc.Rounds))
 	for ri := range sc.Rounds {
 		rd := &sc.Rounds[ri]
 		if rd.Mode != "paused" && rd.Mode != "free" {
@@ -300,7 +381,7 @@ func (r *concRun) plan(sc *ConcScenario) (acts [][][]*cHandle, err error) {
 				return nil, fmt.Errorf("harness: round %d call %d: notification without entries", ri, ci)
 			}
 		}
-		acts[ri] = make([][]*cHandle, len(rd.Mutators))
+		acts[ri] = make([][]cStep, len(rd.Mutators))
 		for mi, mut := range rd.Mutators {
 			for si, a := range mut {
 				switch a.Kind {
@@ -308,7 +389,7 @@ func (r *concRun) plan(sc *ConcScenario) (acts [][][]*cHandle, err error) {
 					addClient(a.Client)
 					h := &cHandle{id: len(r.handles), client: a.Client, path: a.Path, createdRound: ri, createdMutator: mi, createdStep: si}
 					r.handles = append(r.handles, h)
-					acts[ri][mi] = append(acts[ri][mi], h)
+					acts[ri][mi] = append(acts[ri][mi], cStep{h: h})
 				case "remove":
 					if a.Handle < 0 || a.Handle >= len(r.handles) {
 						return nil, fmt.Errorf("harness: round %d mutator %d step %d removes registration %d, which is not created before it", ri, mi, si, a.Handle)
@@ -317,11 +398,9 @@ func (r *concRun) plan(sc *ConcScenario) (acts [][][]*cHandle, err error) {
 					if h.createdRound == ri && h.createdMutator != mi {
 						return nil, fmt.Errorf("harness: round %d mutator %d step %d removes registration %d, which another mutator of the same round creates", ri, mi, si, a.Handle)
 					}
-					if h.removePlanned {
-						return nil, fmt.Errorf("harness: registration %d is removed twice", a.Handle)
-					}
-					h.removePlanned, h.removeRound = true, ri
-					acts[ri][mi] = append(acts[ri][mi], h)
+					rc := &rmCall{round: ri, mutator: mi}
+					h.calls = append(h.calls, rc)
+					acts[ri][mi] = append(acts[ri][mi], cStep{h: h, rc: rc})
 				default:
 					return nil, fmt.Errorf("harness: round %d mutator %d step %d: unknown kind %q", ri, mi, si, a.Kind)
 				}
@@ -336,7 +415,7 @@ func (r *concRun) plan(sc *ConcScenario) (acts [][][]*cHandle, err error) {
 // in which two updates cannot be in flight together; it decides no verdict.
 const phaseAGuard = 300 * time.Millisecond
 
-func (r *concRun) runMutators(rd *CRound, acts [][]*cHandle, start <-chan struct{}, started chan<- struct{}, wg *sync.WaitGroup) {
+func (r *concRun) runMutators(rd *CRound, acts [][]cStep, start <-chan struct{}, started chan<- struct{}, wg *sync.WaitGroup) {
 	for mi := range rd.Mutators {
 		wg.Add(1)
 		go func(mi int) {
@@ -354,7 +433,7 @@ func (r *concRun) runMutators(rd *CRound, acts [][]*cHandle, start <-chan struct
 	}
 }
 
-func (r *concRun) pausedRound(ri int, rd *CRound, acts [][]*cHandle) (calls []*callRun, releaseStamp int64) {
+func (r *concRun) pausedRound(ri int, rd *CRound, acts [][]cStep) (calls []*callRun, releaseStamp int64) {
 	n := len(rd.Calls)
 	evCh := make(chan callEv, 2*n)
 	release := make(chan struct{})
@@ -415,7 +494,7 @@ phaseA:
 	return calls, releaseStamp
 }
 
-func (r *concRun) freeRound(ri int, rd *CRound, acts [][]*cHandle) (calls []*callRun) {
+func (r *concRun) freeRound(ri int, rd *CRound, acts [][]cStep) (calls []*callRun) {
 	start := make(chan struct{})
 	var wg sync.WaitGroup
 	var mu sync.Mutex
@@ -460,6 +539,7 @@ func (r *concRun) judge(calls []*callRun, releaseStamp int64) error {
 	if len(foreign) > 0 {
 		return fmt.Errorf("%s", foreign[0])
 	}
+	r.derive()
 	// registrations by client
 	byClient := map[int][]*cHandle{}
 	for _, h := range r.handles {
@@ -503,8 +583,8 @@ func (r *concRun) judge(calls []*callRun, releaseStamp int64) error {
 			case !anyCompat:
 				return fmt.Errorf("%s: client %d was invoked although it never registered a compatible path (its registrations: %s)", r.describeCall(cr), ev.client, r.describeRegs(byClient[ev.client]))
 			case lastGone != nil:
-				return fmt.Errorf("%s: client %d was invoked (callback #%d of the call, began at stamp %d) after its subscription had been removed: its last compatible registration %q was removed by a remove() that had RETURNED at stamp %d (called at %d)%s; registrations of the client: %s",
-					r.describeCall(cr), ev.client, ei, ev.t, lastGone.path, lastGone.rmRet, lastGone.rmCall, where, r.describeRegs(byClient[ev.client]))
+				return fmt.Errorf("%s: client %d was invoked (callback #%d of the call, began at stamp %d) after its subscription had been removed: a call of the remove function of its last compatible registration #%d %q had RETURNED at stamp %d (%d call(s) of that function in all, the first began at %d)%s; registrations of the client: %s",
+					r.describeCall(cr), ev.client, ei, ev.t, lastGone.id, lastGone.path, lastGone.rmRet, len(lastGone.calls), lastGone.rmCall, where, r.describeRegs(byClient[ev.client]))
 			default:
 				return fmt.Errorf("%s: client %d was invoked (callback began at stamp %d) before AddQuery for any compatible registration had been called; registrations of the client: %s", r.describeCall(cr), ev.client, ev.t, r.describeRegs(byClient[ev.client]))
 			}
@@ -529,10 +609,16 @@ func (r *concRun) judge(calls []*callRun, releaseStamp int64) error {
 				if h.addRet != 0 && h.addRet < cr.xs {
 					undisturbed := true
 					for _, h2 := range byClient[c] {
-						if key(h2.path) != k || h2.rmCall == 0 || h2.rmCall > cr.xe || (h2.rmRet != 0 && h2.rmRet < h.addCall) {
+						if key(h2.path) != k {
 							continue
 						}
-						undisturbed = false
+						// every single call of a remove function of the pair
+						for _, rc := range h2.calls {
+							if rc.call == 0 || rc.call > cr.xe || (rc.ret != 0 && rc.ret < h.addCall) {
+								continue
+							}
+							undisturbed = false
+						}
 					}
 					if undisturbed {
 						pi.certain = true
@@ -571,8 +657,10 @@ func (r *concRun) describeRegs(hs []*cHandle) string {
 	var out []string
 	for _, h := range hs {
 		s := fmt.Sprintf("#%d %q add[%d,%d]", h.id, h.path, h.addCall, h.addRet)
-		if h.rmCall != 0 {
-			s += fmt.Sprintf(" remove[%d,%d]", h.rmCall, h.rmRet)
+		for _, rc := range h.calls {
+			if rc.call != 0 {
+				s += fmt.Sprintf(" remove[%d,%d]", rc.call, rc.ret)
+			}
 		}
 		out = append(out, s)
 	}
@@ -580,6 +668,28 @@ func (r *concRun) describeRegs(hs []*cHandle) string {
 		return "none"
 	}
 	return fmt.Sprint(out)
+}
+
+// classifyRepeats: labels about repeated calls of h's remove function up to round ri.
+func (r *concRun) classifyRepeats(h *cHandle, ri int) {
+	st := &r.st
+	for _, rc := range h.calls {
+		if rc.round != ri || rc.call == 0 {
+			continue
+		}
+		for _, prev := range h.calls {
+			if prev == rc || prev.ret == 0 || prev.ret > rc.call {
+				continue
+			}
+			// rc began after an earlier call of the same function had returned
+			st.calledAgain = true
+			for _, h2 := range r.handles {
+				if h2 != h && h2.client == h.client && key(h2.path) == key(h.path) && h2.addCall > prev.ret && h2.addRet != 0 && h2.addRet < rc.call {
+					st.staleAfterReadd = true
+				}
+			}
+		}
+	}
 }
 
 // classify fills the labels for one judged round.
@@ -627,9 +737,13 @@ func (r *concRun) classify(rd *CRound, calls []*callRun, releaseStamp int64, ri 
 		if h.createdRound == ri && nPaused > 0 && h.addCall != 0 && h.addCall < releaseStamp && h.addCall > firstPause {
 			st.addDuringPause = true
 		}
-		if !(h.removePlanned && h.removeRound == ri) || h.rmCall == 0 {
+		// calls of h's remove function made in this round: the earliest begin
+		// and the earliest return (the existing labels read them as "the"
+		// removal, which they are when the function is called once)
+		rmCall, rmRet, nCalls := h.inRound(ri)
+		if nCalls == 0 {
 			// a registration removed earlier and compatible with a call of this round
-			if h.rmRet != 0 && h.removeRound < ri {
+			if h.returnedBefore(ri) {
 				for _, cr := range calls {
 					if compatibleAny(h.path, cr.entries) {
 						st.removedNotCalled = true
@@ -638,23 +752,64 @@ func (r *concRun) classify(rd *CRound, calls []*callRun, releaseStamp int64, ri 
 			}
 			continue
 		}
+		r.classifyRepeats(h, ri)
+		// calls of the same remove function whose [begin, return] intervals intersect
+		overlapping := false
+		var ovBegin, ovEnd int64 // the common part of two overlapping calls
+		for i, a := range h.calls {
+			for _, b := range h.calls[i+1:] {
+				if a.round != ri || b.round != ri || a.call == 0 || b.call == 0 || a.mutator == b.mutator {
+					continue
+				}
+				lo, hi := max(a.call, b.call), min(a.ret, b.ret)
+				if lo < hi {
+					overlapping = true
+					if ovBegin == 0 || lo < ovBegin {
+						ovBegin = lo
+					}
+					ovEnd = max(ovEnd, hi)
+				}
+			}
+		}
+		if overlapping {
+			st.sameRemoveOverlaps = true
+		}
 		if rd.Mode == "free" {
 			for _, cr := range calls {
-				if compatibleAny(h.path, cr.entries) && cr.xs < h.rmRet && h.rmCall < cr.xe && len(cr.events) > 0 {
+				if compatibleAny(h.path, cr.entries) && cr.xs < rmRet && rmCall < cr.xe && len(cr.events) > 0 {
 					st.raceInFree = true
+					if overlapping && cr.xs < ovEnd && ovBegin < cr.xe {
+						st.gangInFree = true
+					}
 				}
 			}
 			continue
 		}
-		if nPaused == 0 || h.rmCall > releaseStamp || h.rmCall < firstPause {
+		if nPaused == 0 || rmCall > releaseStamp || rmCall < firstPause {
 			continue
 		}
 		st.removeDuringPause = true
-		if h.rmRet > releaseStamp {
+		if rmRet > releaseStamp {
 			st.removeWaited = true
 		}
+		// how many calls of this one remove function began while a call was paused
+		nDuring, nWaited := 0, 0
+		for _, rc := range h.calls {
+			if rc.round == ri && rc.call > firstPause && rc.call < releaseStamp {
+				nDuring++
+				if rc.ret > releaseStamp {
+					nWaited++
+				}
+			}
+		}
+		if nDuring >= 2 {
+			st.gangDuringPause = true
+			if nWaited == nDuring {
+				st.gangAllWaited = true
+			}
+		}
 		for _, cr := range calls {
-			if cr.pausedEv < 0 || cr.events[cr.pausedEv].t > h.rmCall || !compatibleAny(h.path, cr.entries) || h.addRet == 0 || h.addRet > cr.xs {
+			if cr.pausedEv < 0 || cr.events[cr.pausedEv].t > rmCall || !compatibleAny(h.path, cr.entries) || h.addRet == 0 || h.addRet > cr.xs {
 				continue
 			}
 			before, after := false, false
@@ -679,6 +834,13 @@ func (r *concRun) classify(rd *CRound, calls []*callRun, releaseStamp int64, ri 
 				st.nontrivial = true
 				if after {
 					st.calledAfterRelease = true
+				}
+				if nDuring >= 2 {
+					st.gangWindow = true
+					st.multiNontrivial = true
+					if after {
+						st.gangCalledAfterRelease = true
+					}
 				}
 				if others {
 					st.survivorSamePath = true
@@ -707,7 +869,7 @@ func runConc(sc *ConcScenario) (st concStats, err error) {
 		seenPair[k] = 1
 	}
 	for i := range sc.Regs {
-		r.doAct(r.handles[i], "add")
+		r.doAct(cStep{h: r.handles[i]}, "add")
 		notePair(r.handles[i])
 	}
 	for ri := range sc.Rounds {
@@ -728,7 +890,7 @@ func runConc(sc *ConcScenario) (st concStats, err error) {
 		// label bookkeeping in scenario order (labels only)
 		for mi, mut := range rd.Mutators {
 			for si, a := range mut {
-				h := acts[ri][mi][si]
+				h := acts[ri][mi][si].h
 				if a.Kind == "add" {
 					notePair(h)
 				} else {
@@ -745,9 +907,12 @@ func runConc(sc *ConcScenario) (st concStats, err error) {
 	if err := r.judge([]*callRun{cr}, 0); err != nil {
 		return r.st, fmt.Errorf("audit after the last round: %v", err)
 	}
+	r.derive()
 	for _, h := range r.handles {
 		if h.addCall != 0 && h.rmCall == 0 {
-			r.doAct(h, "remove")
+			rc := &rmCall{round: len(sc.Rounds), mutator: -1}
+			h.calls = append(h.calls, rc)
+			r.doAct(cStep{h: h, rc: rc}, "remove")
 		}
 	}
 	cr = r.newCall(len(sc.Rounds)+1, 0, 0, audit)
